@@ -61,7 +61,7 @@ JudgeFn(pre, fn, r) ==
   /\ EncRoundTrip(fn)
   /\ (CheckDump => DumpOK(r.vt))
   /\ (fn.f # "Raw" /\ pre.p.state = "Ground" /\ StepProp(pre.t, fn) # "none") => StepOK(pre.t, fn, r.vt.t, r.ch, Drained(r.dr))
-  /\ (fn.f = "Ris" /\ pre.p.state = "Ground") => FreshEq(r.vt, Fresh(pre.t.cols, pre.t.rows, pre.t.lim))          \* C19
+  /\ (fn.f = "Ris" /\ Functions(pre.p, Enc(fn)) = <<fn>>) => FreshEq(r.vt, Fresh(pre.t.cols, pre.t.rows, pre.t.lim))   \* C19 (ESC aborts any sequence)
 JudgeResize(pre, r) ==
   /\ JudgeCall(pre, <<>>, r)
   /\ TabsResizeOK(pre.t, r.vt.t)                                                       \* C18
